@@ -12,14 +12,14 @@ LEVEL = "exploration"
 RULE = ("full product vendor x class over 11x15 names (incl. names that look like Kconfig literals: digits, 0x.., y) (defaults of both SoCs, empty, one character, non-ASCII, 300 "
         "characters, names differing only in case / trailing dot): (1) manifest vendor/class parameters and component ID "
         "from RFC4122_UUID name and namespace+name descriptions (library and YAML/JSON files), bytes located with the "
-        "verifier's reader; (2) MPI record bytes 16..47; (3) image boot with a build configuration giving the pair to each "
+        "verifier's reader; (2) MPI record bytes 16..47 (library call, and for every pair the real CLI subprocess); (3) image boot with a build configuration giving the pair to each "
         "configurable role in turn - the envelope of that class must land in exactly that role's slot; all three must "
         "equal UUIDv5(UUIDv5(DNS, vendor), class) / UUIDv5(DNS, vendor) computed by the verifier from hashlib.sha1. "
         "configurations: all 4^3 assignments of the three roles without defaults to pairs of a 4-pair pool (every "
         "collision pattern: equal pairs must be rejected, a pair colliding with a default is served by the configured "
         "role), each probed with an envelope of every pool pair.")
 ASSUMPTIONS = ["svmc/refuuid.py (hashlib.sha1)", "svmc/refhex.py, svmc/refcbor.py", "names are representable in a quoted Kconfig string (no quote / newline)"]
-BOUNDS = {"quick": "90 name pairs x 3 derivation sites; 64 configurations x 4 probe envelopes; 6 malformed configurations",
+BOUNDS = {"quick": "165 name pairs x 3 derivation sites + the real CLI of mpi generate; 64 configurations x 4 probe envelopes; 6 malformed configurations",
           "thorough": "same (complete)"}
 
 VENDORS = ["nordicsemi.com", "", "a", "zażółć.example", "xY" * 150, "Nordicsemi.com", "nordicsemi.com.", "acme.example", "nordicsemi.com ", "2024", "y"]
@@ -124,6 +124,30 @@ def run_pair(case, agg):
         agg.ok(key, "ok:3-sites-agree", sample={"vendor": v[:30], "class": c[:30], "class_uuid": want_c.hex()} if case["v"] == 3 else None)
 
 
+# -- the names as typed on a command line -------------------------------------------------------------
+
+def run_cli_pair(case, agg):
+    """`mpi generate --vendor-name V --class-name C` through the real argument parser: the record carries the UUIDs of
+    exactly the typed names (blanks, case, dots, digits and all)"""
+    v, c = VENDORS[case["v"]], CLASSES[case["c"]]
+    want_v, want_c = refuuid.vid(v), refuuid.cid(v, c)
+    with fresh_dir("c13cli") as d:
+        mf = os.path.join(d, "mpi.hex")
+        rc, so, se = impl.cli(["mpi", "generate", "--output-file", mf, "--vendor-name", v, "--class-name", c,
+                               "--address", "0x1000", "--size", "48"], d)
+        if rc != 0:
+            agg.viol("C13:cli/mpi-generate-failed", f"vendor={v[:24]!r} class={c[:24]!r}: rc={rc} {se[-300:]}")
+            return
+        mem = refhex.read_hex_file(mf)
+    rec = bytes(mem.get(0x1000 + i, 0) for i in range(48))
+    if rec[16:32] != want_v:
+        agg.viol("C13:cli/mpi-vendor", f"vendor={v[:24]!r} class={c[:24]!r}: CLI MPI vendor UUID {rec[16:32].hex()} != {want_v.hex()}")
+    elif rec[32:48] != want_c:
+        agg.viol("C13:cli/mpi-class", f"vendor={v[:24]!r} class={c[:24]!r}: CLI MPI class UUID {rec[32:48].hex()} != {want_c.hex()}")
+    else:
+        agg.ok(h8("c13cli", case["v"], case["c"]), "ok:cli", sample={"vendor": v[:30], "class": c[:30]} if case["v"] == 8 and case["c"] == 9 else None)
+
+
 # -- configurations ----------------------------------------------------------------------------------
 
 def cfg_cases(tier):
@@ -175,5 +199,7 @@ def run_cfg(case, agg):
 def plan(tier):
     return [
         CaseStage("name-pairs", lambda: pair_cases(tier), run_pair, disjoint=True, rule="vendor x class, three derivation sites"),
+        CaseStage("cli-names", lambda: pair_cases(tier), run_cli_pair, chunk=2, disjoint=True,
+                  rule="vendor x class typed as real command-line arguments of mpi generate"),
         CaseStage("configurations", lambda: cfg_cases(tier), run_cfg, disjoint=True, rule="4^3 assignments of the configurable roles x 4 probe envelopes"),
     ]
